@@ -370,12 +370,12 @@ where
     ) -> Result<(), Self::Error> {
         let buffer = encode(vault).await?;
 
+        // The new vault may be shorter than the file so the
+        // whole content must be replaced otherwise bytes of
+        // the previous vault would remain after the new rows
         let file =
             OpenOptions::new().write(true).open(&self.file_path).await?;
-        let mut guard = file.lock_write().await.map_err(|e| e.error)?;
-        guard.write_all(&buffer).await?;
-        guard.flush().await?;
-
-        Ok(())
+        let _guard = file.lock_write().await.map_err(|e| e.error)?;
+        self.replace_content(&buffer).await
     }
 }
